@@ -143,6 +143,117 @@ fn c12_view_queries_h6() {
     view_queries::<{ path_bytes(6) }>()
 }
 
+/// lifetime of a hop field in whole seconds: (ExpTime + 1) * 337.5 s, rounded down
+fn ref_lifetime(exp: u8) -> u32 {
+    ((exp as u32 + 1) * 675) / 2
+}
+
+/// All N-byte inputs the view constructor accepts: expiration() never panics and equals the SCION
+/// rule computed from raw bytes - minimum over the (leading non-empty) segments of segment
+/// timestamp + lifetime of the segment's smallest ExpTime, saturating at u32::MAX; 0 for the
+/// empty path.
+fn expiration_view<const N: usize>() {
+    let mut buf: [u8; N] = kani::any();
+    let orig = buf;
+    let Ok((p, _rest)) = StandardPathView::try_from_mut_slice(&mut buf[..]) else {
+        return;
+    };
+    let meta = u32::from_be_bytes([orig[0], orig[1], orig[2], orig[3]]);
+    let s = [((meta >> 12) & 0x3f) as usize, ((meta >> 6) & 0x3f) as usize, (meta & 0x3f) as usize];
+    let infos = (s[0] > 0) as usize + (s[1] > 0) as usize + (s[2] > 0) as usize;
+    let mut want = u32::MAX;
+    let mut seg = 0;
+    let mut k = 0;
+    let mut live = true;
+    while seg < 3 {
+        if s[seg] == 0 {
+            live = false;
+        }
+        if live {
+            let o = 4 + 8 * seg;
+            let ts = u32::from_be_bytes([orig[o + 4], orig[o + 5], orig[o + 6], orig[o + 7]]);
+            let mut e = 255u8;
+            let mut i = 0;
+            while i < s[seg] {
+                let x = orig[4 + 8 * infos + 12 * (k + i) + 1];
+                if x < e {
+                    e = x;
+                }
+                i += 1;
+            }
+            k += s[seg];
+            let seg_exp = ts.saturating_add(ref_lifetime(e));
+            if seg_exp < want {
+                want = seg_exp;
+            }
+        }
+        seg += 1;
+    }
+    if s[0] == 0 {
+        want = 0;
+    }
+    let got = p.expiration();
+    kani::cover!(s[0] > 0 && s[1] > 0 && got == u32::MAX, "two segments, saturated expiry");
+    kani::cover!(s[0] > 1 && got < 1000, "small expiry");
+    assert!(got == want, "view expiration differs from the SCION expiry rule");
+}
+
+// verif: prop=C12,C06 tier=quick cap=900 bound="all 76-byte inputs accepted by the view constructor (<= 3 segments, <= 4 hop fields): every timestamp, every ExpTime" fns="StandardPathView::{expiration,segments},SegmentIterator::next,exp_time_to_duration" stubs="none"
+#[kani::proof]
+#[kani::unwind(6)]
+fn c12_expiration_view_h4() {
+    expiration_view::<{ path_bytes(4) }>()
+}
+
+// verif: prop=C12,C06 tier=thorough cap=2400 bound="all 100-byte inputs accepted by the view constructor (<= 3 segments, <= 6 hop fields)" fns="StandardPathView::{expiration,segments}" stubs="none"
+#[kani::proof]
+#[kani::unwind(8)]
+fn c12_expiration_view_h6() {
+    expiration_view::<{ path_bytes(6) }>()
+}
+
+/// Model of a fixed shape, all timestamps and ExpTime values symbolic: the model's expiration()
+/// equals the same rule (and therefore the view's, by c12_expiration_view_*).
+fn expiration_model(shape: [usize; 3]) {
+    let mut m = StandardPath::new_empty();
+    let mut want = u32::MAX;
+    let mut sg = 0;
+    while sg < 3 {
+        if shape[sg] > 0 {
+            let seg = any_segment(shape[sg]);
+            let mut e = 255u8;
+            let mut i = 0;
+            while i < shape[sg] {
+                if seg.hop_fields[i].expiration_units < e {
+                    e = seg.hop_fields[i].expiration_units;
+                }
+                i += 1;
+            }
+            let x = seg.info_field.timestamp.saturating_add(ref_lifetime(e));
+            if x < want {
+                want = x;
+            }
+            m.segments.push(seg);
+        }
+        sg += 1;
+    }
+    let got = m.expiration();
+    kani::cover!(got == u32::MAX, "saturated expiry");
+    assert!(got == want, "model expiration differs from the SCION expiry rule");
+    std::mem::forget(m);
+}
+
+// verif: prop=C12,C06 tier=quick cap=900 bound="model shapes (2,1,0) and (1,1,1): every timestamp, every ExpTime" fns="StandardPath::expiration,exp_time_to_duration" stubs="none"
+#[kani::proof]
+#[kani::unwind(14)]
+fn c12_expiration_model_s210_s111() {
+    if kani::any() {
+        expiration_model([2, 1, 0])
+    } else {
+        expiration_model([1, 1, 1])
+    }
+}
+
 fn any_hf() -> HopField {
     HopField {
         flags: HopFieldFlags::from_bits_retain(kani::any()),
